@@ -3,13 +3,14 @@ from .core import core_check
 
 
 def run():
-    chk = core_check("C07", quick_keep=24, thorough_keep=6, sessions_quick=480, sessions_thorough=6000)
+    chk = core_check("C07", cfgs=("A", "B"), quick_keep=24, thorough_keep=6, sessions_quick=480, sessions_thorough=6000, keep_b=(4, 1))
     if isinstance(chk, int):
         return chk
     chk.assumptions += ["snapshots executed inside test functions, copyable values, arguments that do not change",
                         "in-process runs observe the counters the plugin's fixture turns into a failure; the sampled "
                         "real sessions observe pytest's own per-test outcome and exit status"]
     return chk.finish(
-        rule="TLC enumerates (operation, previous source, program, approved set); each run is executed in-process "
+        rule="TLC enumerates (operation, previous source, program, approved set) for one site / one test and for two sites "
+             "shared by two tests; each run is executed in-process "
              "(counters/exception per test) and a stride sample as a real pytest session of the plugin (test outcome, "
              "exit status); non-trivial = the run has a failing test, a pending category or a TypeError")
